@@ -21,6 +21,7 @@ from typing import Any, Dict, List, Optional, Set, Tuple
 from sa import paths
 from sa.db import ANY, DB, AnalysisError, FuncInfo, norm, walk_no_nested
 from sa.modes import Modes
+from sa.fixtures import fixture
 from sa.report import Report
 from sa.rules.c09 import analyse
 
@@ -67,6 +68,17 @@ def collect(db: DB):
             elif rec["role"] in READER_ROLES:
                 readers.setdefault(k, []).append({"rec": rec, "tmpl": t})
     return hm, it, binders, readers, n_sites
+
+
+@fixture("C06/N10 lost-update matcher")
+def _fx_n10() -> bool:
+    src = ("def f(e, syms):\n    full = e\n    for s in syms:\n        if s.part:\n"
+           "            e = full.subs(s, s.name + '0')\n    return e\n"
+           "def g(e, syms):\n    for s in syms:\n        if s.part:\n"
+           "            e = e.subs(s, s.name + '0')\n    return e\n")
+    tree = paths.link_parents(ast.parse(src))
+    f_, g_ = tree.body
+    return len(paths.lost_updates(f_)) == 1 and not paths.lost_updates(g_)
 
 
 def run(db: DB, rep: Report) -> None:
@@ -281,6 +293,20 @@ def run(db: DB, rep: Report) -> None:
                           "succeed, so the decision it guards silently always goes one way" %
                           (norm(x)[:70], kk, norm(cont)[:40], pk, norm(probe)[:40]))
 
+    # ---- N10: a per-element rewrite accumulates (no update is lost) ------------------
+    rep.rule("N10", "a value rewritten once per element of a loop carries the previous rewrites", 100)
+    if not _fx_n10():
+        raise AnalysisError("N10 matcher does not fire on its positive example")
+    for f in db.all_functions(["teaal.trans.", "teaal.ir."]):
+        lost = paths.lost_updates(f.node)
+        rep.check("N10", not lost, db.loc(lost[0][0]) if lost else db.loc(f.node), f.short,
+                  "lost-update:" + (norm(lost[0][0])[:50] if lost else f.short),
+                  "%s: no per-element result is overwritten by the next element's" % f.short,
+                  "%s computes '%s' once per element of %s without the previous result as an operand and "
+                  "without reading it in the loop: only the last element's rewrite survives (e.g. only one "
+                  "index variable is renamed to its partition level, the others keep a name no loop binds)" %
+                  (f.short, norm(lost[0][0])[:70] if lost else "", norm(lost[0][1].iter)[:40] if lost else ""))
+
     # ---- N3 --------------------------------------------------------------------
     rep.rule("N3", "receiver temporary is named before the next temporary is allocated", 4)
     for f in db.all_functions(["teaal.trans."]):
@@ -411,6 +437,10 @@ def mutants(db: DB):
         M("clone starts from current ranks", col,
           "                final_tensor = Tensor(\n                    output.root_name(), output.get_init_ranks())",
           "                final_tensor = Tensor(\n                    output.root_name(), output.get_ranks())", "N5"),
+        M("bottom-rank renames do not accumulate", eq,
+          "            for symbol in sexpr.atoms(Symbol):\n                new_rank = partitioning.partition_rank((str(symbol).upper(),))\n                if new_rank:\n                    sexpr = sexpr.subs(symbol, str(symbol) + \"0\")",
+          "            full_expr = sexpr\n            for symbol in full_expr.atoms(Symbol):\n                new_rank = partitioning.partition_rank((str(symbol).upper(),))\n                if new_rank:\n                    sexpr = full_expr.subs(symbol, str(symbol) + \"0\")",
+          "N10"),
         M("payload returns early for output-only loops", eq,
           "        payload: Payload\n        if inputs:\n            # Construct the term payloads",
           "        if output and not inputs:\n            return PVar(output.fiber_name())\n\n"
